@@ -16,11 +16,12 @@ ASSUME \A t \in 1..NT : TLCSet(t, 0)
 
 TrCls0    == <<"r", "core", "sfp", "asm", "blk", "cmp">>
 TrParent0 == <<0, 0, 0, 0, 0, 0>>
+TrLink0   == <<>>
 TrParOf   == [c \in {"r", "core", "sfp", "asm", "blk", "cmp"} |-> Par]
 TrGridCls == {"core", "sfp", "asm", "blk"}
 TrMatCls  == {"cmp"}
 TrActs    == {"Enter", "Exit", "Assign", "AssignRO", "SetCache", "SetGrid", "DeepCopy", "Pickle", "MakeReadOnly",
-              "CallRO", "WriteDb", "LoadDb", "LoadDbRO"}
+              "CallRO", "WriteDb", "LoadDb", "LoadDbRO", "ReadGrid"}
 TrFamilies == {"r", "core", "sfp", "asm", "blk", "cmp"}
 \* the recorder names the call; any name is accepted, the effect (none) is what is checked
 TrCalls   == [c \in TrFamilies |-> {"call"}]
@@ -31,6 +32,7 @@ TInit ==
         /\ parent = [o \in Node |-> IF o <= n0 THEN T.parent[o] ELSE 0]
         /\ cls    = [o \in Node |-> IF o <= n0 THEN T.cls[o] ELSE "cmp"]
         /\ live   = 1..n0
+        /\ linkto = [o \in Node |-> IF o <= n0 THEN T.link[o] ELSE 0]
         /\ val    = [o \in Node |-> IF o <= n0 THEN T.val[o] ELSE Zero]
         /\ rest   = [o \in Node |-> IF o <= n0 THEN T.rest[o] ELSE 0]
         /\ cass   = [o \in Node |-> IF o <= n0 THEN T.cass[o] ELSE ALL]
@@ -59,6 +61,7 @@ TStep ==
     \/ A.n = "AssignRO" /\ AssignROV(A.o, A.p, A.v)
     \/ A.n = "SetCache" /\ SetCacheV(A.o, A.w, A.tag)
     \/ A.n = "SetGrid" /\ SetGridV(A.o, A.g)
+    \/ A.n = "ReadGrid" /\ ReadGrid(A.o)
     \/ A.n \in {"DeepCopy", "Pickle"} /\ Copy(A.x, A.n) /\ act'.ids = A.ids
     \/ A.n = "MakeReadOnly" /\ MakeReadOnly(A.r)
     \/ A.n = "CallRO" /\ CallRO(A.o, "call")
